@@ -633,9 +633,10 @@ Definition trace (gs : list (list op)) := run_groups (run init %s) gs.
 def model_eval(ctx, name, results):
     """evaluate the model on the op groups of every history; -> per history, per action: (otab, htab, acks, misc, events)"""
     from harness import common
-    out = []
     SH = 60
-    for k in range(0, len(results), SH):
+    from concurrent.futures import ThreadPoolExecutor
+
+    def one(k):
         chunk = results[k:k + SH]
         body = COQ_OBS
         for r in chunk:
@@ -644,7 +645,11 @@ def model_eval(ctx, name, results):
         vals = ctx.coq_eval("%s_%d" % (name, k // SH), body, requires=["Verif.lib.PyLite", "Verif.gen.RefsGen", "Verif.lib.Refs"])
         if len(vals) != len(chunk):
             raise common.CoqEvalError("expected %d values, got %d" % (len(chunk), len(vals)))
-        out += vals
+        return vals
+    out = []
+    with ThreadPoolExecutor(max_workers=6) as ex:
+        for vals in ex.map(one, range(0, len(results), SH)):
+            out += vals
     return out
 
 
@@ -749,7 +754,7 @@ def check_refs(ctx, pid, nontrivial_flag):
             ctx.note("corpus witness %s no longer shows %s on the implementation" % (r["origin"], w["expect"]))
         ctx.hist("corpus", "reproduced" if (w.get("expect") in sigs) else ("clean" if not sigs else "other"))
     # 2. generated
-    n = ctx.n(220, 6000)
+    n = ctx.n(540, 6000)
     profiles = list(PROFILES)
     for i in range(n):
         prof = profiles[i % len(profiles)]
